@@ -115,7 +115,8 @@ theorem cacheGet_ne_nil_of_entry (c : SliceCache) (h n : String) (eps : List IEp
     cases eps with
     | nil => exact hne rfl
     | cons e r =>
-      have : e ∈ per.flatMap (·.2) := List.mem_flatMap.mpr ⟨(n, e :: r), hm, by simp⟩
+      have : e ∈ (sortKeys per).flatMap (·.2) :=
+        List.mem_flatMap.mpr ⟨(n, e :: r), (mem_sortKeys _ _).mpr hm, by simp⟩
       rw [hl] at this
       cases this
 
@@ -123,19 +124,20 @@ theorem cacheGet_ne_nil_entry' (c : SliceCache) (h : String) (hn : ∀ per, aloo
     (hne : cacheGet c h ≠ []) : ∃ n eps, cacheEntry c h n = some eps ∧ eps ≠ [] := by
   unfold cacheGet at hne
   cases hc : alookup h c with
-  | none => rw [hc] at hne; simp [dedupEps] at hne
+  | none => rw [hc] at hne; simp [dedupEps, sortKeys] at hne
   | some per =>
     rw [hc] at hne
     simp only [Option.getD] at hne
-    have : per.flatMap (·.2) ≠ [] := fun h0 => hne (by rw [h0]; rfl)
-    cases hf : per.flatMap (·.2) with
+    have : (sortKeys per).flatMap (·.2) ≠ [] := fun h0 => hne (by rw [h0]; rfl)
+    cases hf : (sortKeys per).flatMap (·.2) with
     | nil => exact absurd hf this
     | cons e r =>
-      have he : e ∈ per.flatMap (·.2) := by rw [hf]; simp
+      have he : e ∈ (sortKeys per).flatMap (·.2) := by rw [hf]; simp
       obtain ⟨ne, hne1, hee⟩ := List.mem_flatMap.mp he
       obtain ⟨n, eps⟩ := ne
+      have hne1' := (mem_sortKeys _ _).mp hne1
       refine ⟨n, eps, ?_, ?_⟩
-      · simp [cacheEntry, hc, alookup_of_mem_nodupKeys per n eps (hn per hc) hne1]
+      · simp [cacheEntry, hc, alookup_of_mem_nodupKeys per n eps (hn per hc) hne1']
       · intro h0
         simp only [h0] at hee
         cases hee
@@ -461,11 +463,12 @@ theorem buildSlice_nonempty (pods : List Pod) (nodes : List Node) (byIP : List (
 /-- **Label edit.**  A label edit on a ready, cached pod: `recomputeServiceForPod` rebuilds the slices
     of every Service that selects the new labels, so the endpoints carry the new labels whatever was
     cached before. -/
-theorem pod_label_edit_inv (c : Ctl) (v : Pod) (c' : Ctl) (hstep : stepC c (.pod v) = some c')
+theorem pod_label_edit_inv (c : Ctl) (v : Pod) (c' : Ctl) (hph : v.phase ≠ "F") (hstep : stepC c (.pod v) = some c')
     (hinv : Inv c)
     (hwf : WF { c with pods := upsertBy (fun x => x.ns = v.ns ∧ x.name = v.name) v c.pods })
     (hnc : NoCachedAddr c) (hgood : PodLabelGood c v) : Inv c' := by
-  simp only [stepC, Option.some.injEq] at hstep
+  rw [stepC_pod c v hph] at hstep
+  simp only [Option.some.injEq] at hstep
   subst hstep
   let c1 : Ctl := { c with pods := upsertBy (fun x => x.ns = v.ns ∧ x.name = v.name) v c.pods }
   have hfind : findPod c1.pods v.ns v.name = some v := by
